@@ -46,5 +46,7 @@ SEEDED = [
     ("C10-7", "C10-STEP"),
     ("C10-8", "C10-DISPATCH"),
     ("C10-9", "C10-CODEC"),
+    ("C10-10", "C10-LABEL"),
+    ("C10-11", "C10-ENDIAN"),
 ]
 MUTANTS = list(MUTANTS) + [_P("seed-" + sid, _os.path.join(_SEEDS, sid, "patch.diff"), rule) for sid, rule in SEEDED if _os.path.exists(_os.path.join(_SEEDS, sid, "patch.diff"))]
